@@ -75,8 +75,8 @@ THEOREMS = [
     "MysticVerif.C09.holes_tol_prefers_points_inside_the_radius",
 ]
 
-STREAMS = ["grid", "lattice", "samples", "dsamples", "rbin", "ensemble", "ensrun", "enslead", "oneliner", "fill"]
-ENS_STREAMS = ("ensemble", "ensrun", "enslead", "oneliner")
+STREAMS = ["grid", "lattice", "samples", "dsamples", "rbin", "ensemble", "ensrun", "enslead", "ensinh", "oneliner", "fill"]
+ENS_STREAMS = ("ensemble", "ensrun", "enslead", "ensinh", "oneliner")
 
 
 def vecf(x):
@@ -976,6 +976,7 @@ def gen_ensemble(rng, tier):
     if rng.random() < 0.3:
         c["instance"] = True       # a configured nested solver INSTANCE instead of a solver class
         c["inst_monitors"] = rng.random() < 0.5
+        c["inst_cfg"] = gen_inst_cfg(rng)      # which of the ensemble-level settings the instance carries ITSELF
         if rng.random() < 0.6:
             # the same configured instance is handed to a SECOND ensemble afterwards (same or other kind)
             k2 = rng.choice(["lattice", "buckshot", "buckshot", "sparsity"])
@@ -1014,6 +1015,132 @@ def gen_ensemble(rng, tier):
             c["reuse"]["mode"] = "solve"
     if c["api"] != "class":
         c.pop("reuse", None)
+    return c
+
+
+INST_SETTINGS = ("ranges", "constraints", "penalty", "limits", "termination")
+
+
+def gen_inst_cfg(rng, consistent=0.35):
+    """what a configured nested solver INSTANCE carries itself, per ensemble-level setting: 'same' (the user configured it
+    consistently with the ensemble), 'absent' (only the ENSEMBLE has the setting: the member is subject to it only if the
+    ensemble hands it on), ranges also 'wider' (an own box that contains the ensemble's), limits / termination 'other' (own
+    settings that differ from the ensemble's).  The instance always has finite limits of its own (every run ends)."""
+    if rng.random() < consistent:
+        return {k: "same" for k in INST_SETTINGS}
+    if rng.random() < 0.35:       # a bare instance: limits and termination as the ensemble's, nothing else
+        return {"ranges": "absent", "constraints": "absent", "penalty": "absent", "limits": "same", "termination": "same"}
+    return {"ranges": rng.choice(["same", "absent", "absent", "wider"]), "constraints": rng.choice(["same", "absent"]),
+            "penalty": rng.choice(["same", "absent"]), "limits": rng.choice(["same", "same", "same", "other"]),
+            "termination": rng.choice(["same", "same", "same", "other", "absent"])}
+
+
+def inst_cfg_of(c):
+    return c.get("inst_cfg") or {k: "same" for k in INST_SETTINGS}
+
+
+def inst_ranges(c):
+    """the strict ranges the configured instance carries itself (None: none)"""
+    how = inst_cfg_of(c)["ranges"]
+    if not c.get("ranges") or how == "absent":
+        return None
+    lo, hi, tight, clip = c["ranges"]
+    if how == "wider":
+        return ([a - 1.0 for a in lo], [b + 1.5 for b in hi], tight, clip)
+    return (lo, hi, tight, clip)
+
+
+def inst_limits(c):
+    mi, mf = c["limits"]
+    if inst_cfg_of(c)["limits"] == "other":
+        return ((mi + 3) if mi is not None else 7, mf if mi is not None else None)
+    if mi is None and mf is None:
+        return (30, None)        # the one-liners accept maxiter=None / maxfun=None: the instance still needs an end
+    return (mi, mf)
+
+
+def inst_termination_spec(c):
+    """-> ('spec', t) | ('default',): the termination the instance is configured with"""
+    how = inst_cfg_of(c)["termination"]
+    if how == "absent":
+        return ("default",)       # the solver's own default: never satisfied, the limits end the run
+    if how == "other":
+        return ("spec", ("COG", 1e-7, 4))
+    return ("same",)
+
+
+def gen_far_cost(rng, dim, lo, hi):
+    """a bowl whose FREE minimum lies outside the box [lo, hi] (beyond a face or a corner, by 0.25 .. 2 box widths): a member that
+    is not subject to the ensemble's ranges walks out of the box"""
+    t = []
+    moved = False
+    for i in range(dim):
+        w = hi[i] - lo[i]
+        k = rng.random()
+        if k < 0.6 or (i == dim - 1 and not moved):
+            moved = True
+            off = rng.choice([0.25, 0.5, 1.0, 2.0]) * w + 0.25
+            t.append(hi[i] + off if rng.random() < 0.5 else lo[i] - off)
+        else:
+            t.append(lo[i] + w * rng.choice([0.25, 0.5, 0.75]))
+    terms = tuple(("*", ("c", rng.choice([1.0, 1.0, 4.0])), ("sq", ("-", ("x", i), ("c", t[i])))) for i in range(dim))
+    return ("scalar", ("sum",) + terms)
+
+
+def gen_ensinherit(rng, tier):
+    """member inheritance of every ensemble-level setting: the ensemble ALWAYS has strict ranges and mostly a penalty and / or
+    constraints, the objective's free minimum violates them (outside the box; the penalty / constraints cut through the box),
+    the nested solver is a class or a configured instance that carries all / some / none of these settings itself, the run
+    goes through the classes or the one-liners, run-to-completion (mostly) or step-wise"""
+    c = gen_ensemble(rng, tier)
+    for f in ("dist", "sdist", "rerun_solve"):
+        c.pop(f, None)
+    dim = c["dim"]
+    if not c.get("ranges"):
+        centre = [dyadic(rng, -3, 3, 4) for _ in range(dim)]
+        lo, hi, _ = solvergen.gen_box(rng, dim, centre, "finite")
+        c["ranges"] = (lo, hi, None, rng.choice([None, None, True]))
+    lo, hi = c["ranges"][0], c["ranges"][1]
+    c["cost"] = gen_far_cost(rng, dim, lo, hi)
+    c.pop("constraints", None); c.pop("penalty", None)
+    k = rng.random()
+    if k < 0.75:
+        # a penalty that is active INSIDE the box: its threshold is a point of the box
+        i = rng.randrange(dim)
+        thr = lo[i] + (hi[i] - lo[i]) * rng.choice([0.25, 0.5, 0.75])
+        kk = rng.choice([10.0, 100.0, 1000.0])
+        if rng.random() < 0.5:
+            c["penalty"] = ("*", ("c", kk), ("sq", ("max", ("c", 0.0), ("-", ("x", i), ("c", thr)))))
+        else:
+            c["penalty"] = ("*", ("c", kk), ("sq", ("max", ("c", 0.0), ("-", ("c", thr), ("x", i)))))
+    if rng.random() < 0.4:
+        i = rng.randrange(dim)
+        a, b = lo[i], hi[i]
+        c["constraints"] = rng.choice([("pin", i, ("c", a + (b - a) * rng.choice([0.25, 0.5]))), ("clamp", i, a, a + 0.5 * (b - a)),
+                                       ("clamp", i, a + 0.5 * (b - a), b)])
+    c["nested"] = rng.choice(["NM", "NM", "Powell", "Powell", "DE", "DE2"])
+    c.pop("NP", None)
+    if c["nested"] in ("DE", "DE2"):
+        c["NP"] = rng.randint(4, 7)
+    if rng.random() < 0.7:
+        c["instance"] = True
+        c.setdefault("inst_monitors", rng.random() < 0.5)
+        c["inst_cfg"] = gen_inst_cfg(rng, consistent=0.15)
+    else:
+        for f in ("instance", "inst_monitors", "inst_cfg", "reuse"):
+            c.pop(f, None)
+    if c["api"] == "class":
+        c["mode"] = rng.choice(["solve", "solve", "solve", "solve", "solve-step", "steps"])
+        c["nsteps"] = rng.randint(2, 6)
+        if c.get("reuse"):
+            c["reuse"]["mode"] = rng.choice(["solve", "solve", "steps"])
+    c["limits"] = (rng.choice([5, 8, 12, 20, 30]), rng.choice([None, None, 200, 400]))
+    if c["api"] == "class":
+        c["termination"] = rng.choice([None, ("NCOG", 1e-6, 5), ("COG", 1e-8, 5), ("never",)])
+    if c["api"] != "class":
+        c.pop("reuse", None)
+    if c["mode"] == "solve-step":
+        c["limits"] = (min(c["limits"][0], 12), None if c["limits"][1] is None else min(c["limits"][1], 60))
     return c
 
 
@@ -1165,6 +1292,10 @@ def gen_oneliner(rng, tier):
         c["nested"] = rng.choice(NESTED)
     if c["nested"] in ("DE", "DE2"):
         c["NP"] = rng.randint(4, 7)
+    if "solver" not in omit and rng.random() < 0.25:
+        # solver=<a configured solver instance> ("override the default nested Solver instance")
+        c["instance"] = True; c["inst_monitors"] = rng.random() < 0.3
+        c["inst_cfg"] = gen_inst_cfg(rng, consistent=0.25)
     k = rng.random()
     if k < 0.35:
         c["cost"] = solvergen.gen_cost(rng, dim, allow_vector=False)           # minimum value 0: the value-to-reach stop can fire
@@ -1293,6 +1424,10 @@ def run_oneliner(c, explicit=False):
         fcost = the_cost_args if kw["args"] else cost
         cb = the_callback if kw["callback"] else None
         mons = (Monitor(), Monitor()) if kw["monitors"] else None
+        nested_arg = cls
+        if c.get("instance"):
+            nested_arg = build_instance(c, cls, fcost, cons, pen, requested_termination(c), False)
+            obs["inst_cfg_view"] = member_cfg(nested_arg, tstate)
 
         def rec_ip(ens):
             ip = ens._InitialPoints
@@ -1324,7 +1459,7 @@ def run_oneliner(c, explicit=False):
             if cb is not None:
                 k["callback"] = cb
             if "solver" not in omit:
-                k["solver"] = cls
+                k["solver"] = nested_arg
             if "ftol" not in omit:
                 k["ftol"] = c["ftol"]
             if "gtol" not in omit:
@@ -1379,7 +1514,7 @@ def run_oneliner(c, explicit=False):
                 ens = ME.BuckshotSolver(c["dim"], npts=first)
             else:
                 ens = ME.SparsitySolver(c["dim"], npts=first, rtol=c.get("rtol"))
-            ens.SetNestedSolver(cls)
+            ens.SetNestedSolver(nested_arg)
             ens.SetEvaluationLimits(c["limits"][0], c["limits"][1])
             em, sm = (mons[1], mons[0]) if mons else (Monitor(), Monitor())
             ens.SetEvaluationMonitor(em); ens.SetGenerationMonitor(sm)
@@ -1414,6 +1549,8 @@ def run_oneliner(c, explicit=False):
         obs["member_cfg"] = [member_cfg(m, tstate) for m in ens._allSolvers]
         obs["requested_term"] = tstate(requested_termination(c))
         obs["n_cost"] = len(tape.cost)
+        if not kw["args"]:
+            obs["probes"] = probe_members(ens._allSolvers, c, tape)
         obs["iv"] = tape.iv
         obs["at"] = int(ens.id) if ens.id else 0
         obs["callbacks"] = tape.callbacks
@@ -1704,6 +1841,83 @@ def alias_pattern(objs):
     return out
 
 
+def build_instance(c, cls, cost, cons, pen, same_term, needs_objective):
+    """the configured nested solver INSTANCE the user hands to SetNestedSolver / solver=: it carries, of the ensemble-level
+    settings, what `inst_cfg` says (all of them, consistently, when there is no `inst_cfg`); `same_term` = the ensemble's
+    termination (a mystic condition)"""
+    import trace as tr
+    inst = cls(c["dim"], c["NP"]) if c.get("NP") else cls(c["dim"])
+    cfg = inst_cfg_of(c)
+    r = inst_ranges(c)
+    if r is not None:
+        lo, hi, tight, clip = r
+        kw = {}
+        if tight is not None:
+            kw["tight"] = tight
+        if clip is not None:
+            kw["clip"] = clip
+        inst.SetStrictRanges(list(lo), list(hi), **kw)
+    if cons is not None and cfg["constraints"] == "same":
+        inst.SetConstraints(cons)
+    if pen is not None and cfg["penalty"] == "same":
+        inst.SetPenalty(pen)
+    inst.SetEvaluationLimits(*inst_limits(c))
+    ts = inst_termination_spec(c)
+    if ts[0] == "spec":
+        inst.SetTermination(tr.make_termination(ts[1]))
+    elif ts[0] == "same":
+        inst.SetTermination(same_term)
+    if c.get("inst_monitors"):
+        from mystic.monitors import Monitor
+        inst.SetEvaluationMonitor(Monitor())
+        inst.SetGenerationMonitor(Monitor())
+    if needs_objective:
+        # Step-mode ensembles never hand the objective to a configured instance (only `_solve` does, l.776-777):
+        # without this the members raise TypeError('NoneType' object is not callable) - a crash, not a C09 result
+        inst.SetObjective(cost)
+    return inst
+
+
+def probe_points(spec):
+    """points at which every member's own objective is asked after the run: beyond the upper / lower corner of the ensemble's
+    box, beyond one face only, and the centre (without ranges: three fixed points)"""
+    dim = spec["dim"]
+    if spec.get("ranges"):
+        lo, hi = spec["ranges"][0], spec["ranges"][1]
+        w = [(b - a) if (b > a) else 1.0 for a, b in zip(lo, hi)]
+        mid = [a + 0.5 * (b - a) for a, b in zip(lo, hi)]
+        pts = [[b + 0.5 * v + 0.125 for b, v in zip(hi, w)], [a - 0.5 * v - 0.125 for a, v in zip(lo, w)], list(mid)]
+        one = list(mid); one[-1] = hi[-1] + 2.0 * w[-1] + 0.5
+        pts.append(one)
+        return pts
+    return [[2.75 + 0.5 * i for i in range(dim)], [-3.25 - 0.25 * i for i in range(dim)], [0.125] * dim]
+
+
+def probe_members(members, spec, tp, limit=3):
+    """each member is SUBJECT to the ensemble's bounds, constraints and penalty: the objective the member itself evaluates
+    (`_cost[0]`, what its Step / Solve calls) is asked at the probe points and every call of the user's cost / constraints /
+    penalty it makes is recorded.  Done after all counters have been observed; the tape is restored."""
+    out = []
+    for i, m in enumerate(list(members)[:limit]):
+        f = getattr(m, "_cost", (None,))[0]
+        if f is None:
+            continue
+        for x in probe_points(spec):
+            n0 = (len(tp.cost), len(tp.con), len(tp.pen))
+            cur = tp.cur; tp.cur = ("probe", i)
+            try:
+                v = f(np.array(x, dtype=float))
+                v = fnum(v)
+            except Exception as e:
+                v = "raised %s" % type(e).__name__
+            finally:
+                tp.cur = cur
+            out.append({"member": i, "x": list(x), "value": v, "cost_at": [t[1] for t in tp.cost[n0[0]:]],
+                        "con": [(t[1], t[2]) for t in tp.con[n0[1]:]], "pen_at": [t[1] for t in tp.pen[n0[2]:]]})
+            del tp.cost[n0[0]:]; del tp.con[n0[1]:]; del tp.pen[n0[2]:]
+    return out
+
+
 def run_ensemble(c):
     """drive a real ensemble; returns observations: a list of states (one per observed moment) + the tape.
     With a configured nested INSTANCE (`instance`) the instance is snapshotted before / after every solve, and with
@@ -1835,6 +2049,7 @@ def run_ensemble(c):
         ob["at"] = int(s.id) if s.id else 0
         if tp.created is None:
             tp.created = list(s._allSolvers)       # builtin map, in process: the created objects are the kept ones
+        ob["probes"] = probe_members(s._allSolvers, spec, tp)
         return s
 
     try:
@@ -1846,6 +2061,11 @@ def run_ensemble(c):
                       maxiter=c["limits"][0], maxfun=c["limits"][1])
             if c.get("NP"):
                 cls.NP = c["NP"]          # what SetNestedSolver(solver, NP=..) does
+            if c.get("instance"):
+                # solver=<configured instance> ("override the default nested Solver instance")
+                winst = build_instance(c, cls, cost, cons, pen, requested_termination(c), False)
+                kw["solver"] = winst
+                obs["template"] = {"snaps": [snapshot(winst)]}
             if c.get("ranges"):
                 lo, hi, tight, clip = c["ranges"]
                 kw["bounds"] = list(zip(lo, hi))
@@ -1872,39 +2092,25 @@ def run_ensemble(c):
             if tape.members is not None:
                 obs["members"] = [member_view(m) for m in tape.members]
                 obs["member_cfg"] = [member_cfg(m, tstate) for m in tape.members]
+                obs["probes"] = probe_members(tape.members, c, tape)
             obs["requested_term"] = tstate(requested_termination(c))
+            if c.get("instance"):
+                obs["template"]["snaps"].append(snapshot(winst))
+                obs["inst_cfg_view"] = member_cfg(winst, tstate)
             return obs, tape
         inst = None
         if c.get("instance"):
-            # the user configures the nested solver himself (consistently with the ensemble); it is used as it is
-            inst = cls(c["dim"], c["NP"]) if c.get("NP") else cls(c["dim"])
-            if c.get("ranges"):
-                lo, hi, tight, clip = c["ranges"]
-                kw = {}
-                if tight is not None:
-                    kw["tight"] = tight
-                if clip is not None:
-                    kw["clip"] = clip
-                inst.SetStrictRanges(list(lo), list(hi), **kw)
-            if cons is not None:
-                inst.SetConstraints(cons)
-            if pen is not None:
-                inst.SetPenalty(pen)
-            inst.SetEvaluationLimits(*c["limits"])
+            # the user configures the nested solver himself (all / some / none of the ensemble-level settings); it is used as it is
             if c.get("termination") is not None:
-                inst.SetTermination(tr.make_termination(c["termination"]))
+                same_term = tr.make_termination(c["termination"])
             else:
                 from mystic.termination import NormalizedChangeOverGeneration
-                inst.SetTermination(NormalizedChangeOverGeneration(1e-4))
-            if c.get("inst_monitors"):
-                from mystic.monitors import Monitor
-                inst.SetEvaluationMonitor(Monitor())
-                inst.SetGenerationMonitor(Monitor())
-            if c["mode"] != "solve" or (c.get("reuse") and c["reuse"]["mode"] != "solve"):
-                # Step-mode ensembles never hand the objective to a configured instance (only `_solve` does, l.776-777):
-                # without this the members raise TypeError('NoneType' object is not callable) - a crash, not a C09 result
-                inst.SetObjective(cost)
+                same_term = NormalizedChangeOverGeneration(1e-4)
+            inst = build_instance(c, cls, cost, cons, pen, same_term,
+                                  c["mode"] != "solve" or bool(c.get("reuse") and c["reuse"]["mode"] != "solve"))
+            obs["inst_has_objective"] = inst._cost[1] is not None
             obs["template"] = {"snaps": [snapshot(inst)]}
+            obs["inst_cfg_view"] = member_cfg(inst, tstate)
         drive(c, tape, obs, inst)
         if inst is not None:
             obs["template"]["snaps"].append(snapshot(inst))
@@ -1923,6 +2129,7 @@ def run_ensemble(c):
                     ob2["tb"] = traceback.format_exc()[-1500:]
                 obs["template"]["snaps"].append(snapshot(inst))
                 objs += list(tape2.created or [])
+                ob2["inst_cfg_view"] = obs["inst_cfg_view"]; ob2["inst_has_objective"] = obs["inst_has_objective"]
             obs["template"]["alias"] = alias_pattern(objs)
         return obs, tape
     except Exception as e:
@@ -2034,7 +2241,7 @@ def term_tokens(state):
 
 def line_oneliner(c, ob):
     """the one-liner's arguments -> the members' configuration, by the model (Model/EnsembleRun `oneliner`)"""
-    if ob.get("err") or not ob.get("member_cfg"):
+    if ob.get("err") or not ob.get("member_cfg") or c.get("instance"):
         return None
     kw = c.get("kw") or {"omit": [], "id": None}
     omit = set(kw["omit"])
@@ -2140,11 +2347,26 @@ def lead_stats(trace, hist, n):
         bump(hist, "lead:later-member-overtakes-an-earlier-one")
 
 
+F71_KEY = "ensemble/members-not-subject-to-ensemble-ranges-constraints-penalty/nested-instance-runs-its-own-objective"
+
+
+def inst_own_objective(c, obs):
+    """a configured INSTANCE that already has an objective runs that objective in every mode (`_solve` hands the ensemble's
+    decorated cost over only `if solver._cost[1] is None`, `_step` hands over nothing)"""
+    return bool(c.get("instance")) and (c["mode"] != "solve" or bool(obs.get("inst_has_objective")))
+
+
 def monitor_ensemble(c, obs, tape, hist, tag=""):
     """the property on the real results (no model involved); `tag` marks the clauses of a second ensemble built on a
     reused nested instance"""
     out = []
     if obs["err"]:
+        if c.get("instance") and (c.get("kw") or {}).get("args") and obs["err"].startswith("TypeError") and "takes at most" in obs["err"]:
+            # known finding F73: `_solve` hands a configured instance the ensemble's DECORATED cost (ExtraArgs already bound by
+            # wrap_function) together with ExtraArgs again (l.776-777 SetObjective(cost, ExtraArgs=ExtraArgs))
+            out.append(("ensemble/raises/nested-instance-handed-the-decorated-cost-with-ExtraArgs-again",
+                        "%s(cost, args=(..), solver=<configured %s instance>) raised %s" % (c["kind"], c["nested"], obs["err"])))
+            return out
         out.append(("ensemble/raises%s/%s/%s" % (tag, c["kind"], c["nested"]), "ensemble run raised %s" % obs["err"]))
         return out
     want_n = requested_count(c)
@@ -2169,10 +2391,22 @@ def monitor_ensemble(c, obs, tape, hist, tag=""):
         s = sum(m["evals"] for m in members)
         if total != s:
             out.append((key("total-not-sum"), "%s: total evaluations %r, sum over members %r" % (where, total, s)))
+        # known finding F72: a member copied from a configured instance WITHOUT the ensemble's ranges receives the ensemble's
+        # decorated cost as its raw objective and counts every call of it - also those the ensemble's bounds wrapper answers
+        # with inf without calling the user's cost (tools.wrap_bounds l.419-425).  Strongest true statement inside the class:
+        # no member reports FEWER evaluations than real calls.
+        counted_rejections = (bool(c.get("instance")) and c["mode"] == "solve" and not obs.get("inst_has_objective") and bool(c.get("ranges"))
+                              and inst_cfg_of(c)["ranges"] != "same")
         if total != n_cost:
-            out.append((key("total-not-real-calls"), "%s: total evaluations %r, the cost was really called %d times" % (where, total, n_cost)))
+            if counted_rejections and total > n_cost:
+                out.append(("ensemble/total-not-real-calls/nested-instance-counts-evaluations-rejected-by-the-ensemble-bounds",
+                            "%s: total evaluations %r, the cost was really called %d times (members are copies of a configured %s instance without the ensemble's ranges: calls of the handed-over objective that its bounds wrapper rejects are counted)" % (where, total, n_cost, c["nested"])))
+            else:
+                out.append((key("total-not-real-calls"), "%s: total evaluations %r, the cost was really called %d times" % (where, total, n_cost)))
         if per_member is not None:
             bad = [i for i, m in enumerate(members) if m["evals"] != per_member[i]]
+            if bad and counted_rejections:
+                bad = [i for i in bad if members[i]["evals"] < per_member[i]]
             if bad:
                 out.append((key("member-count-not-real-calls"), "%s: member evaluations %r, real calls per member %r" % (where, [m["evals"] for m in members], per_member)))
         if len(members) != want_n:
@@ -2189,7 +2423,11 @@ def monitor_ensemble(c, obs, tape, hist, tag=""):
                           per_member_counts(tape, len(obs["members"])), "return tuple")
         else:
             if r["all_fcalls"] != obs["n_cost"]:
-                out.append((key("total-not-real-calls"), "return tuple: all_fcalls %r, the cost was really called %d times" % (r["all_fcalls"], obs["n_cost"])))
+                if (c.get("instance") and c.get("ranges") and inst_cfg_of(c)["ranges"] != "same" and r["all_fcalls"] > obs["n_cost"]):
+                    out.append(("ensemble/total-not-real-calls/nested-instance-counts-evaluations-rejected-by-the-ensemble-bounds",
+                                "return tuple: all_fcalls %r, the cost was really called %d times (solver=<configured %s instance without the ensemble's ranges>)" % (r["all_fcalls"], obs["n_cost"], c["nested"])))
+                else:
+                    out.append((key("total-not-real-calls"), "return tuple: all_fcalls %r, the cost was really called %d times" % (r["all_fcalls"], obs["n_cost"])))
     else:
         if obs["npts_attr"] != want_n:
             out.append((key("member-count"), "_npts = %d, %d requested" % (obs["npts_attr"], want_n)))
@@ -2238,6 +2476,13 @@ def monitor_ensemble(c, obs, tape, hist, tag=""):
                         (same_float(ma["e"], mb["e"]) or ma["e"] == mb["e"]))
                 calls_same = a["per_member_cost"] is None or b["per_member_cost"] is None or a["per_member_cost"][i] == b["per_member_cost"][i]
                 rest_same = (ma["evals"] == mb["evals"] and ma["gens"] == mb["gens"] and (same_float(ma["e"], mb["e"]) or ma["e"] == mb["e"]) and calls_same)
+                if rest_same and not same and inst_own_objective(c, obs) and lo is not None and same_vec(clip_box(ma["x"], lo, hi), mb["x"]):
+                    # known finding F71 (members of a configured instance that runs its own objective are not confined to the
+                    # ensemble's ranges) seen after the member has stopped: `__update_state` makes the ensemble's population the
+                    # best member's (same arrays), and the ensemble's own `_decorate_objective` clips it in place at the next Step
+                    out.append((F71_KEY, "member %d had stopped at %s with bestSolution %r outside the ensemble's ranges; the next ensemble Step replaced it by its clipped image %r, keeping the energy %r (no work done: counters and cost calls unchanged)" % (
+                        i, a["tag"], ma["x"], mb["x"], ma["e"])))
+                    break
                 if rest_same and not same and c["nested"] == "NM" and lo is not None and same_vec(clip_box(ma["x"], lo, hi), mb["x"]):
                     # known finding F20 seen through the ensemble: the stopped member's Step re-decorates its objective
                     # (`_live` is False after Finalize) and Nelder-Mead's `_decorate_objective` clips population[0] into the
@@ -2297,11 +2542,16 @@ def monitor_ensemble(c, obs, tape, hist, tag=""):
             # with constraints the first evaluated point is constraints(start): the start is the first constraints input
             x0 = first_con[i][0] if i in first_con else first_cost[i]
             ev0 = first_cost[i]
-            if lo is not None:
+            if lo is not None and not inst_own_objective(c, obs):      # (else: every evaluation is looked at below, F71)
                 if any(not (a <= v <= b) for v, a, b in zip(ev0, lo, hi)):
                     out.append((key("first-evaluation-outside-ranges"), "member %d: first evaluated point %r outside [%r, %r]" % (i, ev0, lo, hi)))
                     break
-                if any(not (a <= v <= b) for v, a, b in zip(x0, lo, hi)):
+                if c.get("instance") and inst_cfg_of(c)["ranges"] != "same" and c.get("dist") and c["kind"] != "buckshot":
+                    # a noisy generated start (outside the box, see above) is clipped by a member that HAS the ranges; a copy of
+                    # an instance without them keeps it as its own iterate and the handed-over objective maps it into the box
+                    # before the first evaluation (checked just above): the pre-constraint iterate is F58's (C02) subject
+                    bump(hist, "ens:instance-without-ranges:noisy-start-mapped-by-the-handed-over-objective")
+                elif any(not (a <= v <= b) for v, a, b in zip(x0, lo, hi)):
                     out.append((key("start-outside-ranges"), "member %d: starting point %r outside [%r, %r]" % (i, x0, lo, hi)))
                     break
             if c["kind"] == "lattice" and "nbins" in c and not c.get("dist"):
@@ -2316,8 +2566,38 @@ def monitor_ensemble(c, obs, tape, hist, tag=""):
                 bump(hist, "ens:start-is-cell-centre")
     # ---- every member carries the ensemble's configuration
     cfgs = obs.get("member_cfg")
+    is_inst = bool(c.get("instance"))
+    # a configured INSTANCE that already has an objective runs that objective in every mode (`_solve` hands the ensemble's
+    # decorated cost over only `if solver._cost[1] is None`, `_step` hands over nothing): known finding F71
+    own_objective = inst_own_objective(c, obs)
+    if cfgs and is_inst:
+        # members of a configured instance are COPIES of it (strongest true statement on the members' own attributes); the
+        # ensemble's ranges / constraints / penalty reach them through the objective (checked below on the real calls and on
+        # the members' own objective); the ensemble's limits and termination have no other carrier than the members' attributes
+        iv_ = obs.get("inst_cfg_view")
+        for i, mc in enumerate(cfgs):
+            if iv_ is not None:
+                diff = [k_ for k_ in ("cons_given", "pen_given", "useStrict", "min", "max", "tight", "clip", "maxiter", "maxfun", "term", "class", "dim")
+                        if mc[k_] != iv_[k_] and not (isinstance(mc[k_], list) and same_vec(mc[k_], iv_[k_]))
+                        and not (k_ in ("maxiter", "maxfun") and iv_[k_] is None)]      # a limit left open is filled in by the member's own Solve
+                if diff:
+                    out.append((key("member-not-a-copy-of-the-nested-instance"), "member %d differs from the configured instance it was copied from in %r: %r vs %r" % (
+                        i, diff, {k_: mc[k_] for k_ in diff}, {k_: iv_[k_] for k_ in diff})))
+                    break
+            mi, mf = c["limits"]
+            if (mi is not None and mc["maxiter"] != mi) or (mf is not None and mc["maxfun"] != mf):
+                out.append(("ensemble/member-keeps-own-limits/nested-instance-used-as-configured",
+                            "the ensemble's limits are (%r, %r); member %d (a copy of the configured %s instance) runs under (%r, %r)" % (mi, mf, i, c["nested"], mc["maxiter"], mc["maxfun"])))
+                break
+            want_t = obs.get("requested_term")
+            if want_t is not None and mc["term"] != want_t:
+                out.append(("ensemble/member-keeps-own-termination/nested-instance-used-as-configured",
+                            "the ensemble's termination is %r; member %d (a copy of the configured %s instance) runs under %r" % (sorted(want_t), i, c["nested"], sorted(mc["term"]))))
+                break
     if cfgs:
         for i, mc in enumerate(cfgs):
+            if is_inst:
+                break
             bad = []
             if mc["class"] != nested_class(c["nested"]).__name__ or mc["dim"] != c["dim"]:
                 bad.append("class/dim %s/%d" % (mc["class"], mc["dim"]))
@@ -2339,9 +2619,9 @@ def monitor_ensemble(c, obs, tape, hist, tag=""):
             if bad:
                 out.append((key("member-config"), "member %d does not carry the ensemble's configuration (%r requested): %s" % (i, {k: c.get(k) for k in ("ranges", "limits", "termination")}, "; ".join(bad))))
                 break
-        if c["api"] == "wrapper":
+        if c["api"] == "wrapper" and not is_inst:
             out += wrapper_term_findings(c, obs)
-        if tagged:
+        if tagged and not own_objective:
             ncon = {}; npen = {}; ncost = {}
             for m, _, _ in tape.con:
                 ncon[m] = ncon.get(m, 0) + 1
@@ -2356,7 +2636,8 @@ def monitor_ensemble(c, obs, tape, hist, tag=""):
                     out.append((key("member-without-constraints"), "member %d evaluated the cost %d times and never applied the ensemble's constraints" % (i, ncost[i]))); break
                 if c.get("penalty") is not None and not npen.get(i):
                     out.append((key("member-without-penalty"), "member %d evaluated the cost %d times and never applied the ensemble's penalty" % (i, ncost[i]))); break
-    # every evaluation obeys the ensemble's ranges and (pure, idempotent, box-compatible) constraints
+    # every evaluation obeys the ensemble's ranges and (pure, idempotent, box-compatible) constraints, and is penalised
+    n0 = len(out)
     if lo is not None:
         for m, x, _ in tape.cost:
             if any(not (a <= v <= b) for v, a, b in zip(x, lo, hi)):
@@ -2367,6 +2648,49 @@ def monitor_ensemble(c, obs, tape, hist, tag=""):
             if not same_vec(dsl.con_apply(c["constraints"], x), x):
                 out.append((key("evaluation-not-constrained"), "member %r evaluated the cost at %r which the ensemble's constraints move to %r" % (m, x, dsl.con_apply(c["constraints"], x))))
                 break
+    if c.get("penalty") is not None and tape.cost:
+        # y = cost(x) + penalty(x): every point at which the cost was really called was also handed to the ensemble's penalty
+        pen_at = set(tuple(f2b(v) for v in x) for _, x, _ in tape.pen)
+        for m, x, _ in tape.cost:
+            if tuple(f2b(v) for v in x) not in pen_at:
+                out.append((key("evaluation-not-penalised"), "member %r evaluated the cost at %r and the ensemble's penalty was never asked at that point (%d cost calls, %d penalty calls)" % (m, x, len(tape.cost), len(tape.pen))))
+                break
+    # the objective each member itself evaluates, asked at points outside / inside the ensemble's box after the run
+    for pr in obs.get("probes") or []:
+        if len(out) > n0:
+            break
+        where = "member %d's own objective asked at %r (value %r)" % (pr["member"], pr["x"], pr["value"])
+        if isinstance(pr["value"], str):
+            out.append((key("member-objective-raises"), "%s: %s" % (where, pr["value"]))); break
+        for x in pr["cost_at"]:
+            if lo is not None and any(not (a <= v <= b) for v, a, b in zip(x, lo, hi)):
+                out.append((key("member-objective-not-subject-to-ranges"), "%s called the user's cost at %r, outside the ensemble's ranges [%r, %r]" % (where, x, lo, hi))); break
+            # (differential evolution applies the constraints to its trial population inside `_Step`, not inside the objective it
+            # stores: differential_evolution.py l.220-250 / l.464-499 have no `wrap_nested`; its real calls are checked above)
+            if c.get("constraints") is not None and (c["nested"] in ("NM", "Powell") or (is_inst and not own_objective)) and not same_vec(dsl.con_apply(c["constraints"], x), x):
+                out.append((key("member-objective-not-subject-to-constraints"), "%s called the user's cost at %r, which the ensemble's constraints move to %r" % (where, x, dsl.con_apply(c["constraints"], x)))); break
+            if c.get("penalty") is not None and not any(same_vec(x, q) for q in pr["pen_at"]):
+                out.append((key("member-objective-not-subject-to-penalty"), "%s called the user's cost at %r without asking the ensemble's penalty there (penalty calls: %r)" % (where, x, pr["pen_at"][:3]))); break
+        else:
+            bump(hist, "ens:member-objective-probed%s" % ("" if pr["cost_at"] else ":no-cost-call(rejected-by-the-bounds)"))
+    if len(out) > n0 and own_objective:
+        # known finding F71: only what the instance carries ITSELF acts on such members - re-keyed to the narrow class, and the
+        # strongest true statement checked instead: every real call obeys the INSTANCE's own ranges / constraints
+        what = "; ".join(w for _, w in out[n0:])
+        del out[n0:]
+        out.append((F71_KEY,
+                    "%s ensemble, %s mode, configured %s instance with its own objective (carrying itself: %r): %s" % (c["kind"], c["mode"], c["nested"], inst_cfg_of(c), what)))
+        ir = inst_ranges(c)
+        if ir is not None:
+            for m, x, _ in tape.cost:
+                if any(not (a <= v <= b) for v, a, b in zip(x, ir[0], ir[1])):
+                    out.append((key("evaluation-outside-the-instances-own-ranges"), "member %r evaluated the cost at %r outside the instance's own ranges [%r, %r]" % (m, x, ir[0], ir[1])))
+                    break
+        if c.get("constraints") is not None and inst_cfg_of(c)["constraints"] == "same":
+            for m, x, _ in tape.cost:
+                if not same_vec(dsl.con_apply(c["constraints"], x), x):
+                    out.append((key("evaluation-not-constrained-by-the-instances-own-constraints"), "member %r evaluated the cost at %r" % (m, x)))
+                    break
     return out
 
 
@@ -2465,6 +2789,12 @@ def ensrun_replayable(c):
     if c["nested"] != "NM":
         return False
     if c.get("ranges") and c["ranges"][3] is False:
+        return False
+    if c.get("instance") and any(v != "same" for v in inst_cfg_of(c).values()):
+        # the members are copies of an instance that does not carry the ensemble's settings: not the configuration the member
+        # model is given (the monitor evaluates the clauses on the real calls instead)
+        return False
+    if c.get("instance") and c["api"] != "class":
         return False
     if c.get("instance") and c["mode"] == "solve" and (c.get("penalty") is not None or c.get("constraints") is not None or c.get("ranges")):
         # a configured nested INSTANCE without an objective receives the ENSEMBLE's decorated cost as its raw objective
@@ -2675,16 +3005,18 @@ def compare_ensrun(c, ob, label, rep, hist):
 # =================================================================== one case
 def pick_stream(rng, tier):
     k = rng.random()
-    if k < 0.14:
+    if k < 0.12:
         return "grid"
-    if k < 0.26:
+    if k < 0.23:
         return "lattice"
-    if k < 0.36:
+    if k < 0.32:
         return "samples"
-    if k < 0.48:
+    if k < 0.44:
         return "dsamples"
-    if k < 0.60:
+    if k < 0.54:
         return "rbin"
+    if k < 0.60:
+        return "ensinh"
     if k < 0.77:
         return "ensemble"
     if k < 0.85:
@@ -2751,7 +3083,7 @@ def run_case(seed, shard, k, tier, stream=None):
             c = gen_oneliner(rng, tier)
             obs, tape = run_oneliner(c)
         else:
-            c = gen_ensemble(rng, tier) if st == "ensemble" else (gen_ensrun(rng, tier) if st == "ensrun" else gen_enslead(rng, tier))
+            c = {"ensemble": gen_ensemble, "ensrun": gen_ensrun, "enslead": gen_enslead, "ensinh": gen_ensinherit}[st](rng, tier)
             obs, tape = run_ensemble(c)
         tape2 = obs.pop("_tape2", None)
         rec["monitor"] = monitor_ensemble(c, obs, tape, hist)
@@ -2812,8 +3144,19 @@ def run_case(seed, shard, k, tier, stream=None):
             bump(hist, "enslead:%s:%s%s" % (c["nested"], c["mode"], ":pickle" if c.get("transport") else ""))
         lead_stats(obs.get("trace") or [], hist, len(obs["states"][-1]["members"]) if obs.get("states") else 0)
         for f in ("transport", "dist", "sdist", "instance", "reuse"):
-            if c.get(f) and not (f in ("instance", "reuse") and c["api"] != "class"):
+            if c.get(f) and not (f == "reuse" and c["api"] != "class"):
                 bump(hist, "ens:with-" + f)
+        if c.get("instance"):
+            ic_ = inst_cfg_of(c)
+            bump(hist, "ens:instance:%s:%s:%s" % (c["api"], c["mode"], "own-objective" if (c["mode"] != "solve" or obs.get("inst_has_objective")) else "objective-from-the-ensemble"))
+            for f in INST_SETTINGS:
+                if f in ("limits", "termination") or c.get(f) is not None:
+                    bump(hist, "ens:instance-carries:%s=%s" % (f, ic_[f]))
+            if c["mode"] == "solve" and not obs.get("inst_has_objective") and any(c.get(f) is not None and ic_[f] != "same" for f in ("ranges", "constraints", "penalty")):
+                bump(hist, "ens:instance:ensemble-setting-carried-by-the-handed-over-objective-only")
+                outside = c.get("ranges") and any(any(not (a <= v <= b) for v, a, b in zip(m_["x"], c["ranges"][0], c["ranges"][1])) for m_ in (obs["states"][-1]["members"] if obs.get("states") else obs.get("members") or []))
+                if outside:
+                    bump(hist, "ens:instance:member-best-outside-the-ensemble-box(pre-constraint point, F58 of C02)")
         for f in ("ranges", "constraints", "penalty"):
             if c.get(f) is not None:
                 bump(hist, "ens:with-" + f)
@@ -3087,6 +3430,13 @@ def main(tier, seed):
             "from mystic.termination), limits / ranges / tight / clip / constraints / penalty / rtol / dist / id as given (model: oneliner), the "
             "return value must be the ensemble's report, and the run must equal - member by member - the ensemble configured by hand through the "
             "class API with the same seeds; "
+            "stream ensinh (and the instance cases of ensemble / oneliner) - member inheritance of every ensemble-level setting: the ensemble has strict "
+            "ranges and mostly a penalty / constraints cutting through the box, the cost is a bowl whose free minimum lies 0.25..2 box widths outside "
+            "the box, the nested solver is a class or a configured INSTANCE carrying all / some / none of ranges, constraints, penalty itself (ranges "
+            "also wider, limits / termination also differing or default), with or without its own objective, class API (Solve / Solve(step=True) / Step "
+            "loops, reuse in a second ensemble) and the one-liners (solver=<instance>); judged on every real call (inside the ensemble's ranges, fixed "
+            "point of its constraints, penalty asked at the same point) and on post-run probes of each member's own objective at points beyond the "
+            "corners / one face / the centre of the box; members of an instance must be exact copies of it; "
             "fillpts / SparsitySolver._InitialPoints (count and range monitored; npts handling / legacy data dropped replayed with the recorded "
             "diffev results as oracle; the objective handed to the optimiser probed at random points, at a collected point and at exactly the "
             "radius). non-trivial = grid with >= 2 non-empty bins and >= 4 points; "
